@@ -17,14 +17,27 @@ func verifBareVaxis(cols, rows int) *Vaxis {
 // window and returns the innermost window together with the oracle's view of it: absolute
 // origin (ox,oy) and the visible rectangle [x0,x1) x [y0,y1) = intersection of all ancestors
 // and the screen. Origin sums are assumed not to wrap (|offset| < 2^40 per level).
+// verifInt returns a free int; for small limits it is built from an 8-bit variable so that
+// solver terms stay narrow (the caller still assumes the range explicitly).
+func verifInt(name string, lim int) int {
+	if lim <= 120 {
+		return int(int8(zzverif.Byte(name)))
+	}
+	return zzverif.Int(name)
+}
+
 func verifChain(vx *Vaxis, W, H, depth int, literal bool) (win Window, ox, oy, x0, y0, x1, y1 int) {
 	win = vx.Window()
 	x1, y1 = W, H
-	const lim = 1 << 40
+	lim := zzverif.Param("lim")
 	for d := 0; d < depth; d++ {
-		col, row := zzverif.Int("col"), zzverif.Int("row")
-		cols, rows := zzverif.Int("cols"), zzverif.Int("rows")
+		col, row := verifInt("col", lim), verifInt("row", lim)
+		cols, rows := verifInt("cols", lim), verifInt("rows", lim)
 		zzverif.Assume(col > -lim && col < lim && row > -lim && row < lim)
+		if lim < 1<<20 {
+			// small-domain variant: sizes bounded as well (keeps 64-bit adders out of the queries)
+			zzverif.Assume(cols > -lim && cols < lim && rows > -lim && rows < lim)
+		}
 		var child Window
 		if literal {
 			p := win
@@ -71,8 +84,8 @@ func VerifC11Contain() {
 	vx := verifBareVaxis(W, H)
 	win, ox, oy, x0, y0, x1, y1 := verifChain(vx, W, H, depth, literal)
 	op := zzverif.Choose("op", 2)
-	c, r := zzverif.Int("c"), zzverif.Int("r")
-	const lim = 1 << 40
+	lim := zzverif.Param("lim")
+	c, r := verifInt("c", lim), verifInt("r", lim)
 	mark := Cell{Character: Character{Grapheme: "x", Width: 1}, Style: Style{Attribute: AttrBold}}
 	switch op {
 	case 0:
